@@ -33,6 +33,9 @@ TRUST = ("Trusted: Coq 8.16.1 kernel (full .vo build; vm_compute only over finit
          "on the generated inputs of each run. ")
 sys.path.insert(0, os.path.join(HERE, "..", "translator"))
 import kernels_defs
+_KF = json.load(open(os.path.join(os.path.dirname(os.path.dirname(os.path.abspath(__file__))), 'known_findings.json')))['findings']
+_FIXES = sorted({c for f in _KF if f.get('status') == 'fixed' for c in str(f.get('commit', '')).replace('+', ' ').split() if c})
+FIX_SUMMARY = f"{len(_FIXES)} fix: commits for {sum(1 for f in _KF if f.get('status') == 'fixed')} repaired findings, {sum(1 for f in _KF if f.get('status') == 'known')} findings recorded as known (not repaired)"
 def kernel_text(pid):
     groups = [g for g, props in kernels_defs.PROPS.items() if pid in props]
     if not groups:
@@ -79,7 +82,8 @@ manifest = {
         "kind_free_text": "Coq 8.16.1 development (coq/), theorems audited with Print Assumptions on every run; model extracted to OCaml and run against the real Python functions on generated inputs",
     }],
     "checks": checks,
-    "notes": "fix: commits in /repo (genuine defects repaired, see known_findings.json): " + ", ".join(FIX_COMMITS),
+    "notes": "fix: commits in /repo (genuine defects repaired): every entry of known_findings.json with status fixed names its "
+             "commit; " + FIX_SUMMARY,
     "not_applicable": [{"property_id": pid, "reason": NOT_APPLICABLE_REASONS.get(pid, "check not built yet in this development; planned approach in DESIGN.md section 6")}
                        for pid in ALL if pid not in CLAIMED],
 }
